@@ -134,7 +134,7 @@ def sortWords (ws : List (String × String)) : List (String × String) := ws.fol
 def showStmt (s : Stmt) : String :=
   let axw := [("X", s.ax.x), ("Y", s.ax.y), ("Z", s.ax.z)].filterMap fun (k, v) => v.map fun q => s!"{k}:{showRat q}"
   let ws := (sortWords (s.words.map fun (k, v) => (k, showRat v))).map fun (k, v) => s!"{k}:{v}"
-  let toks := s.codes ++ axw ++ ws
+  let toks := s.codes.map Code.text ++ axw ++ ws
   if toks.isEmpty then "_" else ",".intercalate toks
 
 def showStmts (ss : List Stmt) : String := if ss.isEmpty then "-" else ";".intercalate (ss.map showStmt)
